@@ -194,7 +194,7 @@ impl<F: Flavor> W<F> {
     }
     fn end(&self) -> Vec<Prop> {
         if F::ASYNC {
-            vec![C16]
+            vec![C16, C03]
         } else {
             vec![C03]
         }
